@@ -27,7 +27,7 @@ ASSUMPTIONS = [
 FLOORS = {'npv_calls': 500, 'pmt_pv_calls': 1000, 'sln_calls': 100,
           'xnpv_calls': 300, 'irr_calls': 100, 'xirr_calls': 100,
           'linearity_relations': 100, 'inversion_relations': 200,
-          'formula_calls': 50, 'layout_calls': 50}
+          'formula_calls': 50, 'layout_calls': 50, 'xnpv_timed_dates': 30}
 ANCHOR_FUNCS = {'xlcalculator/xlfunctions/financial.py': [
     'NPV', 'PMT', 'PV', 'SLN', 'XNPV', 'IRR', 'XIRR', '_xnpv', '_xirr']}
 TIMEOUT = {'quick': 600, 'thorough': 3000}
@@ -237,6 +237,11 @@ def run(ctx):
         for _ in range(m - 1):
             dates.append(dates[-1] + rng.choice([1, 7, 30, 90, 365, 366,
                                                  rng.randint(1, 1825)]))
+        if rng.random() < 0.25:
+            # dates carrying a time of day (the fraction of the serial)
+            dates = [d + rng.choice([0, 0.25, 0.5, 0.75]) for d in dates]
+            dates[0] = float(int(dates[0]))
+            ctx.event('xnpv_timed_dates')
         vals = [round(rng.uniform(-1000, 1000), 2) for _ in range(m)]
         span = (dates[-1] - dates[0]) / 365
         if r > -0.9 and abs(span * math.log10(1 + r)) < 250:
